@@ -536,7 +536,13 @@ func vkLKNewWorld(sc vkLKScenario, T time.Duration) (*vkLKWorld, error) {
 		return &vkLKCaller{owned: sc.Owned, idx: idx, budget: budget, ctx: vkLKNewCtx(dl), req: req, killStep: -1, retStep: -1, arrStep: -1}
 	}
 	for i := 0; i < len(sc.Budgets); i++ {
-		w.callers = append(w.callers, mk(i, sc.Budgets[i], vkLKQname))
+		// every caller spells the name in its own letter case (0x20): a caller that shares another caller's upstream
+		// lookup must still be handed a reply that carries ITS question
+		spelled := []byte(vkLKQname)
+		if i > 0 && i-1 < 3 {
+			spelled[i-1] -= 'a' - 'A' // Www.example. / wWw.example. / wwW.example.
+		}
+		w.callers = append(w.callers, mk(i, sc.Budgets[i], string(spelled)))
 	}
 	if sc.Cfg != "std" {
 		w.occ = mk(vkLKOccTag, 'L', vkLKOccQname)
